@@ -2,7 +2,7 @@
      local function f() local t = nil; return t.x end  f()
    fails two frames deep; the hypotheses of vm_PCall_nohandler_restores hold on it. *)
 From Coq Require Import Uint63 Floats List ZArith.
-From GL Require Import Common.Bytes Lua.Syntax Lua.Values Lua.Run VMX.Machine VMX.Step VMX.VRun VMX.VmCases VMX.PCallFacts.
+From GL Require Import Common.Bytes Lua.Syntax Lua.Values Lua.Run VMX.Machine VMX.Step VMX.VRun VMX.VmCases VMX.PCallFacts VMX.PCallDepthFacts.
 Import ListNotations.
 Open Scope Z_scope.
 
@@ -34,3 +34,33 @@ Proof.
   destruct (PCall_nohandler_restores (mainLoop 100) 0 MultRet s_start e sf HC HL) as [s' [A [B _]]].
   exists e, s'. split; assumption.
 Qed.
+
+(* ---- wave 5: the C-call depth theorems are not vacuous on the same program ---- *)
+
+(* the failing state is one call from Go deeper than the caller, and its running thread is in the table *)
+Example call_fails_one_ccall_deeper :
+  match Call (mainLoop 100) 0 MultRet s_start with
+  | VErr e sf => cur_nccalls sf = cur_nccalls s_start + 1 /\ (vcur sf <? length (vthreads sf))%nat = true
+  | _ => False
+  end.
+Proof. vm_compute. split; reflexivity. Qed.
+
+Example nohandler_ccalls_theorem_applies : exists e s',
+  PCall (mainLoop 100) 0 MultRet None s_start = VRet (Some e) s' /\ cur_nccalls s' = cur_nccalls s_start.
+Proof.
+  destruct (Call (mainLoop 100) 0 MultRet s_start) as [u s1|e sf| |c] eqn:HC;
+    try (exfalso; revert HC; vm_compute; discriminate).
+  assert (Hok : cur_ok sf).
+  { pose proof call_fails_one_ccall_deeper as H. rewrite HC in H. destruct H as [_ H]. apply Nat.ltb_lt. exact H. }
+  destruct (PCall_nohandler_ccalls (mainLoop 100) 0 MultRet s_start e sf HC Hok) as [s' [A [B _]]].
+  exists e, s'. split; assumption.
+Qed.
+
+(* a handler (the host function type) runs and its result is what the protected call delivers; the
+   depth is back at the caller's *)
+Example handler_runs_and_delivers :
+  match PCall (mainLoop 100) 0 MultRet (Some (VBuiltin BType)) s_start with
+  | VRet (Some v) s' => v = VStr [115; 116; 114; 105; 110; 103] /\ cur_nccalls s' = cur_nccalls s_start /\ length (vstack s') = length (vstack s_start)
+  | _ => False
+  end.
+Proof. vm_compute. repeat split. Qed.
